@@ -105,14 +105,23 @@ func c08(p *core.Program, r *core.Report) {
 	// ---- rule 2: polarity
 	const r2 = "min-max-polarity"
 	r.Rule(r2, "in NewBounds, extendFlatCoords, extendLayout, extendStride, extendXYZMFlatCoordsWithXYM every value stored or appended into Bounds.min is math.Min(min[k], .) with the same k, math.Inf(+1), or an element of min; symmetrically max with math.Max / math.Inf(-1)", 14)
-	for _, n := range []string{"NewBounds", "(*Bounds).extendFlatCoords", "(*Bounds).extendLayout", "(*Bounds).extendStride", "(*Bounds).extendXYZMFlatCoordsWithXYM"} {
-		fd, pkg := p.DeclOf("", n)
-		if fd == nil {
-			r.Lost(r2, "geom."+n, "anchor function no longer resolves")
-			continue
+	// every function of package geom declared in the file(s) that define Bounds' methods and that writes min/max
+	// (the set is not a name list: a kernel inlined into Extend, or split out of it, stays covered)
+	p.Decls(true, func(pkg *packages.Package, obj *types.Func, fd *ast.FuncDecl) {
+		if pkg.PkgPath != mod || fd.Body == nil {
+			return
 		}
-		polarity(p, r, r2, pkg, fd, n)
-	}
+		sig, _ := obj.Type().(*types.Signature)
+		isBoundsMethod := sig != nil && sig.Recv() != nil && strings.Contains(sig.Recv().Type().String(), "Bounds")
+		if !isBoundsMethod && obj.Name() != "NewBounds" {
+			return
+		}
+		switch obj.Name() {
+		case "Set", "SetCoords", "Clone", "Swap":
+			return // caller-supplied values, copies: not folds
+		}
+		polarity(p, r, r2, pkg, fd, core.ObjName(obj)[len("geom."):])
+	})
 
 	// ---- rule 3: Z with Z, M with M
 	const r3 = "zm-index-table"
@@ -121,7 +130,7 @@ func c08(p *core.Program, r *core.Report) {
 
 	// ---- rule 4: decision table of extendLayout
 	const r4 = "layout-widening-table"
-	r.Rule(r4, "for each of the 25 pairs (box layout A, incoming layout B) over {NoLayout, XY, XYZ, XYM, XYZM} the first clause of extendLayout's switch whose condition folds to true performs the action the layout lattice requires: XYZ+XYM appends an infinite M slot; XYM+(XYZ|XYZM) inserts an infinite Z slot before M; A<B otherwise extends by stride; anything else leaves the box alone (conditions folded with go/types constants)", 25)
+	r.Rule(r4, "CONSTEVAL: for each of the 25 pairs (box layout A, incoming layout B) over {NoLayout, XY, XYZ, XYM, XYZM}, extendLayout evaluated with b.layout bound to A and its parameter to B reaches exactly the action the layout lattice requires: XYZ+XYM appends one infinite M slot and becomes XYZM; XYM+(XYZ|XYZM) re-builds min/max from their first two slots plus an infinite Z slot and the old M and becomes XYZM; A<B otherwise calls extendStride and takes B; anything else stores nothing", 25)
 	layoutWideningTable(p, r, r4)
 
 	strideRule(p, r, "stride-discipline", []strideTarget{{"", "(*Bounds).extendFlatCoords", "all"}})
@@ -333,46 +342,24 @@ func zmTable(p *core.Program, r *core.Report, rule string) {
 	okT := mi["XYM"] == 2 && mi["XYZM"] == 3 && mi["XY"] == -1 && mi["XYZ"] == -1 && zi["XYZ"] == 2 && zi["XYZM"] == 2 && zi["XY"] == -1 && zi["XYM"] == -1
 	r.Check(okT, rule, "geom.Layout/index-tables", "geom.go", true, fmt.Sprintf("MIndex=%v ZIndex=%v", mi, zi), fmt.Sprintf("MIndex/ZIndex tables are %v / %v; OGC ordering is X,Y,[Z],[M]", mi, zi))
 	// extendXYZMFlatCoordsWithXYM: collect (dest const idx, src offset) pairs from math.Min/Max calls
-	fd, pkg := p.DeclOf("", "(*Bounds).extendXYZMFlatCoordsWithXYM")
-	if fd == nil {
-		r.Lost(rule, "geom.(*Bounds).extendXYZMFlatCoordsWithXYM", "anchor lost")
-		return
-	}
+	// the XYM-into-XYZM kernel: the Bounds method whose loop folds constant destination slots from source offsets
 	pairs := map[[2]int64]int{}
 	step := int64(-1)
-	ast.Inspect(fd.Body, func(n ast.Node) bool {
-		switch x := n.(type) {
-		case *ast.AssignStmt:
-			if len(x.Lhs) != 1 || len(x.Rhs) != 1 {
-				return true
-			}
-			li, ok := x.Lhs[0].(*ast.IndexExpr)
-			if !ok {
-				return true
-			}
-			d, ok := eng.ConstInt64(eng.ConstOf(pkg.TypesInfo, li.Index))
-			if !ok {
-				return true
-			}
-			_, args := mathCall(pkg, x.Rhs[0])
-			for _, a := range args {
-				ie, ok := a.(*ast.IndexExpr)
-				if !ok || boundsSide(pkg, fd, a) != "" {
-					continue
-				}
-				if be, ok := ie.Index.(*ast.BinaryExpr); ok && be.Op == token.ADD {
-					if s, ok := eng.ConstInt64(eng.ConstOf(pkg.TypesInfo, be.Y)); ok {
-						pairs[[2]int64{d, s}]++
-					}
-				}
-			}
-		case *ast.ForStmt:
-			if as, ok := x.Post.(*ast.AssignStmt); ok && as.Tok == token.ADD_ASSIGN {
-				step, _ = eng.ConstInt64(eng.ConstOf(pkg.TypesInfo, as.Rhs[0]))
-			}
+	var fd *ast.FuncDecl
+	p.Decls(true, func(pk *packages.Package, obj *types.Func, d *ast.FuncDecl) {
+		sig, _ := obj.Type().(*types.Signature)
+		if pk.PkgPath != mod || d.Body == nil || sig == nil || sig.Recv() == nil || !strings.Contains(sig.Recv().Type().String(), "Bounds") {
+			return
 		}
-		return true
+		prs, st := zmPairs(pk, d)
+		if len(prs) > 0 && fd == nil {
+			fd, pairs, step = d, prs, st
+		}
 	})
+	if fd == nil {
+		r.Lost(rule, "geom.(*Bounds)/xym-into-xyzm-kernel", "no method of Bounds folds constant destination slots from source offsets any more")
+		return
+	}
 	want := map[[2]int64]bool{{0, 0}: true, {1, 1}: true, {mi["XYZM"], mi["XYM"]}: true}
 	okP := len(pairs) == 3
 	for k, cnt := range pairs {
@@ -380,9 +367,9 @@ func zmTable(p *core.Program, r *core.Report, rule string) {
 			okP = false
 		}
 	}
-	r.Check(okP, rule, "geom.(*Bounds).extendXYZMFlatCoordsWithXYM/pairs", p.Pos(fd.Pos()), true, fmt.Sprintf("(dest,src) pairs %v, each for min and max", pairs), fmt.Sprintf("(dest,src) ordinate pairs are %v; want (0,0),(1,1),(%d,%d) once for min and once for max: M must stay with M", pairs, mi["XYZM"], mi["XYM"]))
+	r.Check(okP, rule, "geom.(*Bounds)/xym-into-xyzm-kernel/pairs", p.Pos(fd.Pos()), true, fmt.Sprintf("(dest,src) pairs %v, each for min and max", pairs), fmt.Sprintf("(dest,src) ordinate pairs are %v; want (0,0),(1,1),(%d,%d) once for min and once for max: M must stay with M", pairs, mi["XYZM"], mi["XYM"]))
 	strideXYM := int64(3)
-	r.Check(step == strideXYM, rule, "geom.(*Bounds).extendXYZMFlatCoordsWithXYM/step", p.Pos(fd.Pos()), true, "source stepped by XYM.Stride() = 3", fmt.Sprintf("source is stepped by %d, XYM.Stride() is 3", step))
+	r.Check(step == strideXYM, rule, "geom.(*Bounds)/xym-into-xyzm-kernel/step", p.Pos(fd.Pos()), true, "source stepped by XYM.Stride() = 3", fmt.Sprintf("source is stepped by %d, XYM.Stride() is 3", step))
 	// extendLayout widening XYM -> XYZM: append(b.min[:Z], Inf, b.min[M_old])
 	fd2, pkg2 := p.DeclOf("", "(*Bounds).extendLayout")
 	if fd2 == nil {
@@ -421,69 +408,22 @@ func zmTable(p *core.Program, r *core.Report, rule string) {
 
 // layoutWideningTable folds extendLayout's switch conditions for every pair of named layouts.
 func layoutWideningTable(p *core.Program, r *core.Report, rule string) {
-	fd, pkg := p.DeclOf("", "(*Bounds).extendLayout")
-	if fd == nil || len(fd.Type.Params.List) != 1 || fd.Recv == nil {
-		r.Lost(rule, "geom.(*Bounds).extendLayout", "anchor lost")
+	fn := mustFn(p, r, rule, "", "(*Bounds).extendLayout")
+	if fn == nil || len(fn.Params) != 2 {
 		return
 	}
-	recvName := fd.Recv.List[0].Names[0].Name
-	paramName := fd.Type.Params.List[0].Names[0].Name
-	var sw *eng.Switch
-	for _, s := range eng.Switches(pkg, fd.Body) {
-		s := s
-		if !s.IsType && s.Tag == nil {
-			sw = &s
-			break
+	pos := p.Pos(fn.Pos())
+	isLayoutField := func(a ssa.Value) bool {
+		fa, ok := a.(*ssa.FieldAddr)
+		if !ok {
+			return false
 		}
-	}
-	if sw == nil {
-		r.Lost(rule, "geom.(*Bounds).extendLayout/switch", "no tagless switch in extendLayout")
-		return
-	}
-	classify := func(c *eng.Clause) string {
-		if c == nil {
-			return "none->"
+		pt, ok := fa.X.Type().Underlying().(*types.Pointer)
+		if !ok || namedTypeName(pt.Elem()) != "Bounds" {
+			return false
 		}
-		var kinds []string
-		newLayout := ""
-		for _, st := range c.Body {
-			ast.Inspect(st, func(n ast.Node) bool {
-				switch x := n.(type) {
-				case *ast.CallExpr:
-					if id, ok := x.Fun.(*ast.Ident); ok && id.Name == "append" {
-						if _, isSlice := x.Args[0].(*ast.SliceExpr); isSlice && len(x.Args) == 3 {
-							kinds = append(kinds, "insert-z")
-						} else if len(x.Args) == 2 {
-							kinds = append(kinds, "append-m")
-						} else {
-							kinds = append(kinds, "append-other")
-						}
-					}
-					if sel, ok := x.Fun.(*ast.SelectorExpr); ok && sel.Sel.Name == "extendStride" {
-						kinds = append(kinds, "extend-stride")
-					}
-				case *ast.AssignStmt:
-					if len(x.Lhs) == 1 && types.ExprString(x.Lhs[0]) == recvName+".layout" {
-						if v, ok := eng.ConstInt64(eng.ConstOf(pkg.TypesInfo, x.Rhs[0])); ok {
-							newLayout = layoutNames(p)[v]
-						} else {
-							newLayout = types.ExprString(x.Rhs[0])
-						}
-					}
-				}
-				return true
-			})
-		}
-		k := "none"
-		if len(kinds) > 0 {
-			k = kinds[0]
-			for _, o := range kinds {
-				if o != k {
-					k = "mixed"
-				}
-			}
-		}
-		return k + "->" + newLayout
+		st, ok := pt.Elem().Underlying().(*types.Struct)
+		return ok && namedTypeQual(st.Field(fa.Field).Type()) == mod+".Layout"
 	}
 	ln := layoutNames(p)
 	var vals []int64
@@ -493,30 +433,61 @@ func layoutWideningTable(p *core.Program, r *core.Report, rule string) {
 	sort.Slice(vals, func(i, j int) bool { return vals[i] < vals[j] })
 	for _, a := range vals {
 		for _, b := range vals {
-			env := map[string]int64{recvName + ".layout": a, paramName: b}
-			var chosen *eng.Clause
-			undecided := false
-			for i := range sw.Clauses {
-				c := &sw.Clauses[i]
-				if c.Keys[0].Default {
-					chosen = c
-					break
+			ev := &eng.ConstEval{Inline: func(f *ssa.Function) bool { return false }}
+			ev.Override = func(f *ssa.Function, v ssa.Value, args []eng.CVal) (eng.CVal, bool) {
+				if ld, ok := v.(*ssa.UnOp); ok && ld.Op == token.MUL && isLayoutField(ld.X) {
+					return eng.IntV(a), true
 				}
-				v, ok := eng.EvalBool(pkg.TypesInfo, c.Node.List[0], env)
-				if !ok {
-					undecided = true
-					break
-				}
-				if v {
-					chosen = c
-					break
-				}
+				return eng.CVal{}, false
 			}
+			top := ev.Run(fn, []eng.CVal{eng.Top, eng.IntV(b)})
+			kinds := map[string]bool{}
+			newLayout := ""
+			eng.WalkReached(top, func(act *eng.CEResult, in ssa.Instruction) {
+				switch x := in.(type) {
+				case *ssa.Store:
+					if isLayoutField(x.Addr) {
+						if k, ok := act.Of(x.Val).Int(); ok {
+							newLayout = ln[k]
+						} else {
+							newLayout = "?"
+						}
+					}
+				case *ssa.Call:
+					if bi, ok := x.Call.Value.(*ssa.Builtin); ok && bi.Name() == "append" && len(x.Call.Args) == 2 {
+						n := int64(-1)
+						if sl, isSl := x.Call.Args[1].(*ssa.Slice); isSl {
+							if pt, isP := sl.X.Type().Underlying().(*types.Pointer); isP {
+								if arr, isA := pt.Elem().Underlying().(*types.Array); isA {
+									n = arr.Len()
+								}
+							}
+						}
+						_, fromPrefix := x.Call.Args[0].(*ssa.Slice)
+						switch {
+						case fromPrefix && n == 2:
+							kinds["insert-z"] = true
+						case !fromPrefix && n == 1:
+							kinds["append-m"] = true
+						default:
+							kinds["append-other"] = true
+						}
+					}
+					if f := x.Call.StaticCallee(); f != nil && f.Name() == "extendStride" {
+						kinds["extend-stride"] = true
+					}
+				}
+			})
+			k := "none"
+			if len(kinds) == 1 {
+				for kk := range kinds {
+					k = kk
+				}
+			} else if len(kinds) > 1 {
+				k = "mixed"
+			}
+			got := k + "->" + newLayout
 			key := fmt.Sprintf("geom.(*Bounds).extendLayout/%s+%s", ln[a], ln[b])
-			if undecided {
-				r.Unknown(rule, key, p.Pos(fd.Pos()), "a clause condition does not fold to a constant for this pair")
-				continue
-			}
 			want := "none->"
 			switch {
 			case ln[a] == "XYZ" && ln[b] == "XYM":
@@ -524,10 +495,60 @@ func layoutWideningTable(p *core.Program, r *core.Report, rule string) {
 			case ln[a] == "XYM" && (ln[b] == "XYZ" || ln[b] == "XYZM"):
 				want = "insert-z->XYZM"
 			case a < b:
-				want = "extend-stride->" + paramName
+				want = "extend-stride->" + ln[b]
 			}
-			got := classify(chosen)
-			r.Check(got == want, rule, key, p.Pos(fd.Pos()), true, "action "+got, fmt.Sprintf("box layout %s extended with %s performs %q, the layout lattice requires %q (an M range left in the Z slot, or a missing slot)", ln[a], ln[b], got, want))
+			r.Check(got == want, rule, key, pos, true, "action "+got, fmt.Sprintf("box layout %s extended with %s performs %q, the layout lattice requires %q (an M range left in the Z slot, or a missing slot)", ln[a], ln[b], got, want))
 		}
 	}
+}
+
+// zmPairs collects, from the for-loops of fd, the (constant destination slot, constant source offset) pairs of
+// assignments `b.min[d] = math.Min(b.min[d], flat[i+s])` and the loop's constant step.
+func zmPairs(pkg *packages.Package, fd *ast.FuncDecl) (map[[2]int64]int, int64) {
+	pairs := map[[2]int64]int{}
+	step := int64(-1)
+	ast.Inspect(fd.Body, func(n ast.Node) bool {
+		fs, ok := n.(*ast.ForStmt)
+		if !ok {
+			return true
+		}
+		st := int64(-1)
+		if as, ok := fs.Post.(*ast.AssignStmt); ok && as.Tok == token.ADD_ASSIGN {
+			st, _ = eng.ConstInt64(eng.ConstOf(pkg.TypesInfo, as.Rhs[0]))
+		}
+		found := false
+		ast.Inspect(fs.Body, func(m ast.Node) bool {
+			x, ok := m.(*ast.AssignStmt)
+			if !ok || len(x.Lhs) != 1 || len(x.Rhs) != 1 {
+				return true
+			}
+			li, ok := x.Lhs[0].(*ast.IndexExpr)
+			if !ok {
+				return true
+			}
+			d, ok := eng.ConstInt64(eng.ConstOf(pkg.TypesInfo, li.Index))
+			if !ok {
+				return true
+			}
+			_, args := mathCall(pkg, x.Rhs[0])
+			for _, a := range args {
+				ie, ok := a.(*ast.IndexExpr)
+				if !ok || boundsSide(pkg, fd, a) != "" {
+					continue
+				}
+				if be, ok := ie.Index.(*ast.BinaryExpr); ok && be.Op == token.ADD {
+					if s, ok := eng.ConstInt64(eng.ConstOf(pkg.TypesInfo, be.Y)); ok {
+						pairs[[2]int64{d, s}]++
+						found = true
+					}
+				}
+			}
+			return true
+		})
+		if found {
+			step = st
+		}
+		return true
+	})
+	return pairs, step
 }
